@@ -16,10 +16,10 @@ func init() {
 	register(&Rule{Name: "STATE.COMMIT", Props: []string{"C18", "C01"}, Floor: 4,
 		Doc: "on the load path nothing persistent is written before the statement has been accepted",
 		Run: ruleStateCommit})
-	register(&Rule{Name: "STATE.RESET", Props: []string{"C18", "C13", "C11"}, Floor: 8,
+	register(&Rule{Name: "STATE.RESET", Props: []string{"C18", "C13", "C11", "C09", "C10", "C05"}, Floor: 8,
 		Doc: "every piece of state that a Process run writes is reset at the top of Process or is justified monotone",
 		Run: ruleStateReset})
-	register(&Rule{Name: "MEMO.ERR", Props: []string{"C18"}, Floor: 2,
+	register(&Rule{Name: "MEMO.ERR", Props: []string{"C18", "C05", "C08"}, Floor: 2,
 		Doc: "a memoised resolver returns on its early path the errors it found when it set the memo",
 		Run: ruleMemoErr})
 	register(&Rule{Name: "LOCK.GUARDED", Props: []string{"C19", "C11", "C12"}, Floor: 12,
@@ -218,15 +218,13 @@ func ruleStateCommit(c *Ctx) []Obligation {
 // ---------------------------------------------------------------- STATE.RESET
 
 var stateMonotone = map[string]string{
-	"Modules.Modules":                "load-monotone: FindModule reads missing imports from disk and files them; nothing is ever removed, re-filing is refused as duplicate",
-	"Modules.SubModules":             "as Modules.Modules",
-	"Modules.Path":                   "configuration: directories of files that were read; AddPath de-duplicates",
-	"Modules.pathMap":                "configuration: see Path",
-	"Modules.byNS":                   "positive cache cleared by Modules.add whenever a module is filed (STATE.RESET/add); guarded by nsMu",
-	"typeDictionary.dict":            "load-monotone: typedefs of accepted statements, keyed by their node (adopt)",
-	"Import.Module":                  "re-linked by every run (includes is reset, so include() visits every module again)",
-	"Include.Module":                 "re-linked by every run",
-	"Module.Modules":                 "set by add to the owning set; constant afterwards",
+	"Modules.Path":        "configuration: directories of files that were read; AddPath de-duplicates",
+	"Modules.pathMap":     "configuration: see Path",
+	"Modules.byNS":        "positive cache cleared by Modules.add whenever a module is filed (STATE.RESET/add); guarded by nsMu",
+	"typeDictionary.dict": "load-monotone: typedefs of accepted statements, keyed by their node (adopt)",
+	"Import.Module":       "re-linked by every run (includes is reset, so include() visits every module again)",
+	"Include.Module":      "re-linked by every run",
+	"Module.Modules":      "set by add to the owning set; constant afterwards",
 }
 
 func ruleStateReset(c *Ctx) []Obligation {
@@ -311,8 +309,8 @@ func ruleStateReset(c *Ctx) []Obligation {
 			obs = append(obs, ok(R, con, c.Pos(proc.Pos()), c.inProgressBalanced(k)))
 		case c.rebuiltInWriter(k) != "":
 			obs = append(obs, ok(R, con, c.Pos(proc.Pos()), c.rebuiltInWriter(k)))
-		case stateMonotone[k] != "":
-			obs = append(obs, just(R, con, c.Pos(proc.Pos()), stateMonotone[k]))
+		case jstr("stateMonotone", stateMonotone, k) != "":
+			obs = append(obs, just(R, con, c.Pos(proc.Pos()), jstr("stateMonotone", stateMonotone, k)))
 		default:
 			obs = append(obs, bad(R, con, c.Pos(proc.Pos()), "state written during a Process run survives into the next run: it is neither reset at the top of Process nor recorded as monotone with a reason (a second run, or a run after loading more modules, may see stale data)"))
 		}
@@ -901,7 +899,7 @@ func (c *Ctx) guardPairs() []guardPair {
 }
 
 var lockJustified = map[string]string{
-	"yang.(*typeDictionary).adopt: read of typeDictionary.dict": "the map ranged over belongs to o, the scratch dictionary that Modules.Parse created for one statement and never shared; the receiver's own map is written under d.mu in the same function",
+	"yang.(*typeDictionary).adopt: read of typeDictionary.dict":        "the map ranged over belongs to o, the scratch dictionary that Modules.Parse created for one statement and never shared; the receiver's own map is written under d.mu in the same function",
 	"yang.(*Module).findIdentityBase: read of identityDictionary.dict": "called only while a Process run resolves identities and types (resolveIdentities holds the mutex around its own calls; Type/Typedef.resolve run inside the same single-threaded Process). Neither scenario of C19 reads it concurrently: independent sets have distinct dictionaries, and the read API of a processed set never reaches findIdentityBase (READ.PURE)",
 }
 
@@ -965,7 +963,7 @@ func ruleLockGuarded(c *Ctx) []Obligation {
 					obs = append(obs, ok(R, con, pos, "every call site of this function holds the mutex"))
 					return
 				}
-				if why, okj := lockJustified[base]; okj {
+				if why, okj := jget("lockJustified", lockJustified, base); okj {
 					obs = append(obs, just(R, con, pos, why))
 					return
 				}
@@ -1226,7 +1224,7 @@ func ruleReadPure(c *Ctx) []Obligation {
 						}
 					}
 				}
-				if why, okj := readJustified[base]; okj {
+				if why, okj := jget("readJustified", readJustified, base); okj {
 					obs = append(obs, just(R, con, c.InstrPos(in), why))
 					return
 				}
